@@ -4,6 +4,7 @@
 package harness
 
 import (
+	"syscall"
 	"encoding/json"
 	"fmt"
 	"os"
@@ -124,14 +125,41 @@ func memHigh() bool {
 var lastBeat atomic.Int64
 var curRun atomic.Value
 
+// cpuNow is the CPU time (user + system, all threads) this process has used.
+func cpuNow() time.Duration {
+	var ru syscall.Rusage
+	if syscall.Getrusage(syscall.RUSAGE_SELF, &ru) != nil {
+		return 0
+	}
+	return time.Duration(ru.Utime.Nano() + ru.Stime.Nano())
+}
+
+// watchdog ends the process (exit 2, never a verdict) when one run makes no
+// progress.  "No progress" is measured in CPU time the process actually got:
+// on a machine whose cores are all taken by other work a run can legitimately
+// need minutes of wall-clock time, and a wall-clock limit alone turned such
+// runs into harness errors (seen with load averages above 100).  A run that
+// spins is stopped after `limit` of CPU time; one that is blocked without
+// using any CPU after 15 times the limit of wall-clock time.
 func watchdog(limit time.Duration) {
+	var seenBeat int64
+	var cpuAtBeat time.Duration
 	for {
 		time.Sleep(2 * time.Second)
 		lb := lastBeat.Load()
-		if lb != 0 && time.Since(time.Unix(0, lb)) > limit {
+		if lb == 0 {
+			continue
+		}
+		if lb != seenBeat {
+			seenBeat, cpuAtBeat = lb, cpuNow()
+			continue
+		}
+		wall := time.Since(time.Unix(0, lb))
+		cpu := cpuNow() - cpuAtBeat
+		if wall > limit && (cpu > limit || wall > 15*limit) {
 			buf := make([]byte, 1<<20)
 			n := runtime.Stack(buf, true)
-			fmt.Fprintf(os.Stderr, "HARNESS-ERROR: watchdog: run %v made no progress for %v\n%s\n", curRun.Load(), limit, buf[:n])
+			fmt.Fprintf(os.Stderr, "HARNESS-ERROR: watchdog: run %v made no progress for %v (cpu %v)\n%s\n", curRun.Load(), wall.Round(time.Second), cpu.Round(time.Second), buf[:n])
 			os.Exit(2)
 		}
 	}
